@@ -15,6 +15,11 @@ package main
 //     L<k>:<dur>@<t>                             hold ctx.snowflakeLock for dur ms from t
 //     I<k>:<fp>=<url>;<fp>=<url>@<t>             InstallBridgeListProfile at t (replaces the whole list; "-" = empty list)
 //     W<k>:<ms>@0                                watchdog: total observation time of the scenario
+//     D<k>:<n>@0                                 delivery barrier: every client handler of the scenario gets a ResponseWriter
+//                                                whose first Write blocks (a slow connection) until n client handlers
+//                                                have reached their first Write (or 4 s passed), so that the delivery
+//                                                phases of the client responses overlap; Write reads its argument only
+//                                                after the barrier, as io.Writer permits
 // Output: space separated  P<k>=..  C<k>=..  A<k>=..  avail=<len(idToSnowflake)> heapU=<n> heapR=<n> gauge=<sum> freshR=.. freshU=..
 
 import (
@@ -91,10 +96,50 @@ func vbGaugeSum(ctx *BrokerContext) int {
 	return int(sum)
 }
 
+// vbBarrier / vbSlowWriter: see event D
+type vbBarrier struct {
+	mu      sync.Mutex
+	n       int
+	arrived int
+	ch      chan struct{}
+}
+
+func (b *vbBarrier) wait() {
+	b.mu.Lock()
+	b.arrived++
+	if b.arrived == b.n {
+		close(b.ch)
+	}
+	b.mu.Unlock()
+	select {
+	case <-b.ch:
+	case <-time.After(4 * time.Second):
+	}
+}
+
+type vbSlowWriter struct {
+	http.ResponseWriter
+	bar  *vbBarrier
+	once sync.Once
+}
+
+func (w *vbSlowWriter) Write(p []byte) (int, error) {
+	w.once.Do(w.bar.wait)
+	return w.ResponseWriter.Write(p)
+}
+
 func vbDoClient(i *IPC, nat, fp, offer, mode string) string {
+	return vbDoClientW(i, nat, fp, offer, mode, nil)
+}
+
+func vbDoClientW(i *IPC, nat, fp, offer, mode string, bar *vbBarrier) string {
 	var rec *httptest.ResponseRecorder
 	var body []byte
 	rec = httptest.NewRecorder()
+	var rw http.ResponseWriter = rec
+	if bar != nil {
+		rw = &vbSlowWriter{ResponseWriter: rec, bar: bar}
+	}
 	switch mode {
 	case "v", "a":
 		req := messages.ClientPollRequest{Offer: offer, NAT: nat}
@@ -107,11 +152,11 @@ func vbDoClient(i *IPC, nat, fp, offer, mode string) string {
 		}
 		if mode == "v" {
 			r := httptest.NewRequest("POST", "/client", bytes.NewReader(b))
-			SnowflakeHandler{i, clientOffers}.ServeHTTP(rec, r)
+			SnowflakeHandler{i, clientOffers}.ServeHTTP(rw, r)
 			body = rec.Body.Bytes()
 		} else {
 			r := httptest.NewRequest("GET", "/amp/client/"+amp.EncodePath(b), nil)
-			SnowflakeHandler{i, ampClientOffers}.ServeHTTP(rec, r)
+			SnowflakeHandler{i, ampClientOffers}.ServeHTTP(rw, r)
 			if rec.Code == 200 {
 				dec, err := amp.NewArmorDecoder(bytes.NewReader(rec.Body.Bytes()))
 				if err != nil {
@@ -145,7 +190,7 @@ func vbDoClient(i *IPC, nat, fp, offer, mode string) string {
 		if nat != "" {
 			r.Header.Set("Snowflake-NAT-Type", nat)
 		}
-		SnowflakeHandler{i, clientOffers}.ServeHTTP(rec, r)
+		SnowflakeHandler{i, clientOffers}.ServeHTTP(rw, r)
 		switch rec.Code {
 		case 200:
 			return "answer:" + rec.Body.String()
@@ -251,9 +296,14 @@ func vbRunScenario(args []string) string {
 	// scheduled at least 100 ms earlier have taken place (poll registered; poll expired when its 10 s are over;
 	// client / answer arrived), so that a loaded machine cannot reorder well-separated events. Herds do not use it.
 	sequenced := false
+	var bar *vbBarrier
 	for _, e := range evs {
 		if e.kind == 'Q' {
 			sequenced = true
+		}
+		if e.kind == 'D' {
+			n, _ := strconv.Atoi(e.f[0])
+			bar = &vbBarrier{n: n, ch: make(chan struct{})}
 		}
 	}
 	type evState struct {
@@ -296,7 +346,7 @@ func vbRunScenario(args []string) string {
 		}
 		deadline := time.Now().Add(6 * time.Second)
 		for _, p := range evs {
-			if p.isRel || p.kind == 'W' || p.kind == 'Q' || p.kind == 'L' || p.at+100 > e.at || (p.kind == e.kind && p.k == e.k) {
+			if p.isRel || p.kind == 'W' || p.kind == 'Q' || p.kind == 'D' || p.kind == 'L' || p.at+100 > e.at || (p.kind == e.kind && p.k == e.k) {
 				continue
 			}
 			key := fmt.Sprintf("%c%d", p.kind, p.k)
@@ -325,7 +375,7 @@ func vbRunScenario(args []string) string {
 	for _, e := range evs {
 		e := e
 		key := fmt.Sprintf("%c%d", e.kind, e.k)
-		if e.kind == 'W' || e.kind == 'Q' {
+		if e.kind == 'W' || e.kind == 'Q' || e.kind == 'D' {
 			continue
 		}
 		set(key, "blocked")
@@ -364,7 +414,7 @@ func vbRunScenario(args []string) string {
 				mark(key, true)
 				pollDone[e.k] <- got
 			case 'C':
-				set(key, vbDoClient(i, e.f[0], e.f[1], e.f[2], e.f[3]))
+				set(key, vbDoClientW(i, e.f[0], e.f[1], e.f[2], e.f[3], bar))
 			case 'A':
 				set(key, vbDoAnswer(i, e.f[0], e.f[1]))
 			case 'I':
